@@ -227,6 +227,10 @@ CHECKS = {
             "C11_nonmember_refused (binding a node whose class is not a member of the union reference - or not the class of the plain "
             "reference - leaves the reference-graph state as it was; executed against the library's raise by the `bindbad` operations of "
             "the rg stream, also after the same class was stored through ANOTHER union). "
+            "Whole-array updates (model Lay.updateArr = Array._update, executed by the lay driver on every whole-array assignment of a "
+            "reference-free type): C11_array_update_shape_refused (another length / shape), C11_array_update_too_large_refused (items "
+            "that need more than the size stored in the instance), C11_array_update_frame (an accepted update needs at most the "
+            "instance's size, writes only inside [addr, addr + size), keeps the buffer length). "
             "Placement (model Place.decide of typeutils.allocate_on_buffer, executed against the library for all 448 combinations of "
             "context / buffer / offset arguments x 4 entry points): C11_offset_without_buffer_refused (any explicit offset - 0 included - "
             "without a buffer), C11_foreign_context_refused, C11_placement_refused_iff (these are the only refusals), "
@@ -234,8 +238,9 @@ CHECKS = {
             "numeric offset leaves the allocator untouched). "
             "Known finding O-13 (non-atomic dict update of a nested struct) is "
             "listed in known_findings.json.",
-            "Partial: shape / length refusals of array updates and over-sized nested items are decision logic compared by the tie "
-            "(exception class and buffer image at the raise), not theorems; that a refused placement leaves every buffer unchanged is "
+            "Partial: that an accepted whole-array update READS BACK as the assigned value is a theorem only for values of the "
+            "instance's exact size (C10_set_part_at_path); for smaller fitting values it rests on the tie and the oracle; struct "
+            "updates from dictionaries are applied field by field (known finding O-13); that a refused placement leaves every buffer unchanged is "
             "an oracle on the library (the model's decision function has no state to change).",
             "7/C11"),
     "C08": ("Lean 4 proof: two's-complement relative-offset codec (encode/decode round trip over Int), null encodings, growth as prefix "
